@@ -6,6 +6,12 @@ from symx import build
 
 
 def main():
+    if len(sys.argv) > 1 and sys.argv[1] == 'polecopies':
+        from . import C04c
+        path = C04c.gen_harness(C04c.fields())
+        bad = C04c.native_mismatches(path)
+        print('copy_DRbar_masses_to_pole_masses on three computed spectra: %s' % ('; '.join(bad) if bad else 'all pole fields equal the DR-bar fields'))
+        sys.exit(1 if bad else 0)
     exe = build.build_tool(os.path.join(os.path.dirname(os.path.dirname(os.path.abspath(__file__))), 'replay', 'c04_driver.cpp'),
                            'c04_driver')
     sys.exit(subprocess.call([exe]))
